@@ -44,5 +44,6 @@ def tasks(tier, seed=0):
     # the thin mixins in the stacks of SolverReplacement / SolverHybrid (the same obligations as under C11)
     from vf.contracts import layers
     out += layers.all_tasks(tier, only=("ConcreteHandlerMixin", "ConstraintDeduplicatorMixin", "EagerResolutionMixin", "ConstraintFilterMixin", "SimplifySkipperMixin"))
+    out.append(task("vf.contracts.layers", "ob_stack_composition", "layer.stacks/every-layer-under-contract+caches-over-exact-frontends", ["C11", "C13"], replay="vf.contracts.layers:replay_composition"))
     out.append(task("vf.contracts.canaries", "ob_canaries", "harness.canaries/wrong-methods-are-noticed", ["C03", "C11", "C12", "C13", "C15"], tier=tier))
     return out + _rtc.rtc_tasks("C13", tier, seed)
